@@ -190,7 +190,9 @@ void COSyncProdActivate(CO_SYNC *sync)
 
     time = (sync->Cycle / 100);
     if (time > 0) {
-        ticks = COTmrGetTicks(&node->Tmr, time, CO_TMR_UNIT_100US);
+        /* full seconds are exact, the rest fits the 16bit time argument */
+        ticks = ((time / 10000u) * node->Tmr.Freq) +
+                COTmrGetTicks(&node->Tmr, (uint16_t)(time % 10000u), CO_TMR_UNIT_100US);
         sync->Tmr = COTmrCreate(&node->Tmr,
             ticks,
             ticks,
